@@ -40,11 +40,17 @@ func b01(b bool) string {
 	return "0"
 }
 
-var portCounter atomic.Int32
+var portCounter, srvPortCounter atomic.Int32
 
-// nextPorts hands out an even port number; every caller gets its own pair.
+// nextPorts hands out an even client port number (20000..59998, cyclic: the harness makes far more
+// SETUPs than there are ports; a pair is only reused long after its session ended).
 func nextPorts() int {
-	return 20000 + int(portCounter.Add(1))*2
+	return 20000 + int(portCounter.Add(1)%20000)*2
+}
+
+// nextServerPorts: even port numbers for the servers' own UDP listeners (10000..19998).
+func nextServerPorts() int {
+	return 10000 + int(srvPortCounter.Add(1)%5000)*2
 }
 
 // instance is a running server with its scripted handler and the client side of the test.
@@ -93,12 +99,12 @@ func newInstance(cfg Cfg, tc *timeoutCfg) (*instance, error) {
 			s.VerifSetCheckStreamPeriod(tc.check)
 		}
 		if cfg.UDP {
-			p := nextPorts()
+			p := nextServerPorts()
 			s.UDPRTPAddress = fmt.Sprintf("127.0.0.1:%d", p)
 			s.UDPRTCPAddress = fmt.Sprintf("127.0.0.1:%d", p+1)
 		}
 		if cfg.Mcast {
-			p := nextPorts()
+			p := nextServerPorts()
 			s.MulticastIPRange = fmt.Sprintf("224.%d.0.0/16", 1+in.id%200)
 			s.MulticastRTPPort = p
 			s.MulticastRTCPPort = p + 1
